@@ -193,10 +193,14 @@ class Sched:
     me = self.cur
     if me.kill or self.aborting:
       raise _Killed()
+    if me.pending_exc is not None and where != 'Condition.reacquire':
+      exc, me.pending_exc = me.pending_exc, None
+      raise exc
     if pred():
       return True
     self.blocked_events[where] += 1
-    me.blocked_on = pred
+    # an asynchronous exception sent to this thread (interrupt()) also ends the wait; it is raised below
+    me.blocked_on = pred if where == 'Condition.reacquire' else (lambda: pred() or me.pending_exc is not None)
     me.where = where
     me.timed_out = False
     me.deadline = None if timeout is None else self.now + max(timeout, 0)
@@ -211,6 +215,9 @@ class Sched:
         raise _Killed()
     me.blocked_on = None
     me.deadline = None
+    if me.pending_exc is not None and where != 'Condition.reacquire':
+      exc, me.pending_exc = me.pending_exc, None
+      raise exc
     return not me.timed_out
 
   def finish(self, me):
@@ -234,6 +241,7 @@ class VT:
     self.blocked_on = None
     self.deadline = None
     self.timed_out = False
+    self.pending_exc = None
     self.where = 'start'
     self.kill = False
     self.exc = None
@@ -382,16 +390,19 @@ class Condition:
     self.lock.owner = None
     tok = [False]
     self.waiters.append(tok)
+    ok = False
     try:
       ok = s.block(lambda: tok[0], 'Condition.wait', timeout)
     finally:
       if tok in self.waiters:
         self.waiters.remove(tok)
-    if self.lock.owner is not None:
-      s.block(lambda: self.lock.owner is None, 'Condition.reacquire')
-    self.lock.owner = me
-    if hasattr(self.lock, 'cnt'):
-      self.lock.cnt = saved
+      # like CPython, the lock is taken back before wait() returns or raises (also for an asynchronous exception)
+      if not (me.kill or s.aborting):
+        if self.lock.owner is not None:
+          s.block(lambda: self.lock.owner is None, 'Condition.reacquire')
+        self.lock.owner = me
+        if hasattr(self.lock, 'cnt'):
+          self.lock.cnt = saved
     return ok
 
   def wait_for(self, predicate, timeout=None):
@@ -721,6 +732,14 @@ futures_shim = types.SimpleNamespace(
     wait=_wait, as_completed=_as_completed, FIRST_COMPLETED='FIRST_COMPLETED', FIRST_EXCEPTION='FIRST_EXCEPTION',
     ALL_COMPLETED='ALL_COMPLETED')
 time_shim = _Time()
+
+
+def interrupt(thread, exc):
+  """Sends an asynchronous exception (e.g. KeyboardInterrupt) to a virtual thread: it is raised in that thread when it next
+  blocks or wakes up from a wait (never while it waits to take a condition's lock back)."""
+  vt = getattr(thread, 'vt', thread)
+  if vt is not None and not vt.finished:
+    vt.pending_exc = exc
 
 
 def install(*modules, threading=True, queue=True, futures=True, time=False):
